@@ -1056,8 +1056,23 @@ pub fn enumerate(seed: u64, max_len: usize) -> Vec<Case> {
             }
         }
     }
-    // ---- counters (no float type): skewed success reports
-    let ns: [u64; 14] = [0, 1, 2, 3, 4, 5, 9, 10, 11, 20, 31, 40, 100, 1000];
+    // ---- capacity boundary of ci_max_size (exactly CAP is legal, CAP + 1 is the documented panic)
+    for flt in [Flt::F32, Flt::F64] {
+        for (e, cap) in [(Entry::QuantMaxSize8, 8usize), (Entry::QuantMaxSize1024, 1024usize)] {
+            for len in [cap - 1, cap, cap + 1] {
+                for &q in &[f64::NAN, 0.0, 0.5, 0.999, 1.0] {
+                    for &cf in &[18u8, 19, 20] {
+                        tag += 1;
+                        let bg = background(seed, tag, len, flt);
+                        out.push(Case { entry: e, flt, a: bg, b: vec![], n: 0, k: 0, q: q.to_bits(), conf: cf, style: 0, fault: "capacity-boundary".into(), pos: len as u32 });
+                    }
+                }
+            }
+        }
+    }
+    // ---- counters (no float type): skewed success reports; very large populations exercise the
+    // integer / float conversions
+    let ns: [u64; 18] = [0, 1, 2, 3, 4, 5, 9, 10, 11, 20, 31, 40, 100, 1000, 1 << 32, (1 << 53) + 1, u64::MAX - 1, u64::MAX];
     for &e in &[Entry::PropCi, Entry::PropWilson, Entry::PropZNormal, Entry::PropCiTrue, Entry::PropCiIf, Entry::PropStatsCi, Entry::PropIsSignificant] {
         for &n in &ns {
             let mut ks: Vec<u64> = vec![0, 1, 2, 3, 5, 6, 9, 10, n / 2];
@@ -1066,13 +1081,13 @@ pub fn enumerate(seed: u64, max_len: usize) -> Vec<Case> {
                     ks.push(n - d);
                 }
             }
-            ks.extend_from_slice(&[n + 1, n + 2, n * 2 + 7]);
+            ks.extend_from_slice(&[n.saturating_add(1), n.saturating_add(2), n.saturating_mul(2).saturating_add(7)]);
             ks.sort_unstable();
             ks.dedup();
             for &k in &ks {
                 let counts_only = matches!(e, Entry::PropCiTrue | Entry::PropCiIf | Entry::PropStatsCi);
-                if counts_only && k > n {
-                    continue; // a counting front-end cannot observe more successes than records
+                if counts_only && (k > n || n > 100_000) {
+                    continue; // a counting front-end cannot observe more successes than records (and is fed real records)
                 }
                 let fault = if k > n { "skewed:duplicated-success-reports" } else if k < 2 || n - k < 2 { "skewed:lost-reports" } else { "none" };
                 for &cf in &ENUM_CONFS {
@@ -1094,7 +1109,7 @@ pub fn enumerate(seed: u64, max_len: usize) -> Vec<Case> {
     }
     let qs: [f64; 14] = [f64::NAN, f64::NEG_INFINITY, -1.0, -0.0, 0.0, 5e-324, 1e-9, 0.25, 0.5, 0.999, 1.0 - f64::EPSILON / 2.0, 1.0, 1.5, f64::INFINITY];
     for &e in &[Entry::QuantIndices, Entry::QuantStatsCi] {
-        for &n in &[0u64, 1, 2, 3, 4, 5, 8, 15, 100, 1000, 100_000] {
+        for &n in &[0u64, 1, 2, 3, 4, 5, 8, 15, 100, 1000, 100_000, 1 << 32, (1 << 53) + 1, u64::MAX] {
             for &q in &qs {
                 for &cf in &ENUM_CONFS {
                     out.push(Case { entry: e, flt: Flt::Int, a: vec![], b: vec![], n, k: 0, q: q.to_bits(), conf: cf, style: 0, fault: if n < 4 { "early-eof".into() } else { "bad-query".into() }, pos: 0 });
